@@ -247,27 +247,27 @@ FLOW_TB = ["Float execution of the model (Lean runtime + libm) assumed IEEE bina
            "order laws of finite binary64 (strict weak order, x < nextUp x) assumed; proved for no concrete float type",
            "topology handed to the flow model is the real grid's neighbour lists (tied to the grid model in C07/C18)"]
 
-register("C01", gen=gen_resolved, oracles=[oracle.c01], cause=oracle.c01_cause,
+register("C01", lean_modules=['FsModel.PFlood', 'FsModel.Descent', 'FsModel.C01', 'FsModel.Tilt'], theorems=['Fs.pflood_parent', 'Fs.pflood_complete', 'Fs.step_wf', 'Fs.C01.C01_pflood_single', 'Fs.Tilt.tilt_descends'], gen=gen_resolved, oracles=[oracle.c01], cause=oracle.c01_cause,
          sections={"elev", "update"} | GRAPH_SECTIONS, nontrivial=raised_or_rerouted, tags=tags_flow,
          rule="random grids (raster 3 connectivities/border mixes, profile, mesh) x elevation families (ties, plateaus, zero, subnormal, huge, nested cones) x masks x base-level sets x six resolver variants [+ multi router]; non-trivial = at least one node was raised by the resolver",
          trusted_base=FLOW_TB)
-register("C02", gen=gen_resolved, oracles=[oracle.c02], sections={"elev"}, nontrivial=raised_or_rerouted, tags=tags_flow,
+register("C02", lean_modules=['FsModel.PFlood'], theorems=['Fs.pflood_parent'], gen=gen_resolved, oracles=[oracle.c02], sections={"elev"}, nontrivial=raised_or_rerouted, tags=tags_flow,
          rule="same scenario family as C01; oracle = independent Bellman minimax spill level; non-trivial = some node raised",
          trusted_base=FLOW_TB)
 register("C03", gen=lambda r, t: gen_any_ops(r, t, acc=True), oracles=[oracle.c03], sections={"acc", "acc_overloads_agree"},
          nontrivial=has_pits_or_multi, tags=tags_flow,
          rule="routed graphs of all operator families x scalar/array sources (negative values included); exact-rational recurrence and conservation on the implementation's doubles; non-trivial = graph has a confluence or multiple receivers",
          trusted_base=FLOW_TB + ["accumulation theorems are over exact arithmetic (commutative ring); rounding is covered only by the bit-exact correspondence and the rational oracle with an error bound"])
-register("C04", gen=gen_single, oracles=[oracle.c04], sections={"recv", "rdist", "rweight", "rcount"}, nontrivial=has_pits_or_multi, tags=tags_flow,
+register("C04", lean_modules=['FsModel.Router'], theorems=['Fs.Router.route_spec'], gen=gen_single, oracles=[oracle.c04], sections={"recv", "rdist", "rweight", "rcount"}, nontrivial=has_pits_or_multi, tags=tags_flow,
          rule="single router (sequential and parallel), raw and flooded fields; non-trivial = at least two nodes share a receiver", trusted_base=FLOW_TB)
 register("C05", gen=gen_multi, oracles=[oracle.c05], cause=oracle.c05_cause, sections={"recv", "rdist", "rweight", "rcount"},
          nontrivial=has_pits_or_multi, tags=tags_flow,
          rule="multi router x exponents {0, .5, 1, 1.1, 2, 8}, exponent changed between updates, flooded fields; non-trivial = some node has several receivers",
          trusted_base=FLOW_TB + ["weights theorem is over an ordered field with an abstract pow satisfying pow 1 = 1, 0 <= pow x"])
-register("C06", gen=lambda r, t: gen_any_ops(r, t), oracles=[oracle.c06], sections={"dcount", "donors", "dfs", "bfs", "levels", "rcount", "recv"},
+register("C06", lean_modules=['FsModel.Donors', 'FsModel.Dfs', 'FsProofs.DfsPerm', 'FsModel.Bfs'], theorems=['Fs.Donors.mem_donors', 'Fs.Donors.donors_nodup', 'Fs.Dfs.dfs_recv_before', 'Fs.Dfs.dfs_perm', 'Fs.Bfs.next_level_receivers'], gen=lambda r, t: gen_any_ops(r, t), oracles=[oracle.c06], sections={"dcount", "donors", "dfs", "bfs", "levels", "rcount", "recv"},
          nontrivial=has_pits_or_multi, tags=tags_flow,
          rule="all operator families incl. spanning-tree re-routing, masks, repeated updates on one object; snapshots' tables checked too", trusted_base=FLOW_TB)
-register("C19", gen=lambda r, t: gen_any_ops(r, t, basins=True), oracles=[oracle.c19], sections={"basins", "outlets", "pits"},
+register("C19", lean_modules=['FsModel.Basins'], theorems=['Fs.Basins.run_block', 'Fs.Basins.block_labels_agree'], gen=lambda r, t: gen_any_ops(r, t, basins=True), oracles=[oracle.c19], sections={"basins", "outlets", "pits"},
          nontrivial=has_pits_or_multi, tags=tags_flow,
          rule="basins/outlets/pits after every single-direction sequence, masks, carve/basic re-routing, repeated calls", trusted_base=FLOW_TB)
 
@@ -401,11 +401,11 @@ GRID_SECTIONS = {"grid", "size", "nmax", "status", "area", "area_views_agree", "
 GRID_TB = ["tables of the grid model are regenerated from raster_grid.hpp / profile_grid.hpp / base.hpp by translate.py on every run",
            "xtensor view assignment semantics of set_nodes_status modelled by hand (tied by exhaustive border-mix correspondence)"]
 
-register("C07", gen=lambda r, t: gen_grids(r, t) + (gen_grids_exhaustive(r, t) if t == "thorough" else []), oracles=[oracle.c07],
+register("C07", lean_modules=['FsModel.U64'], theorems=['Fs.nbIndex_toNat'], gen=lambda r, t: gen_grids(r, t) + (gen_grids_exhaustive(r, t) if t == "thorough" else []), oracles=[oracle.c07],
          sections=GRID_SECTIONS, nontrivial=grid_nontrivial, tags=tags_grid,
          rule="random rasters/profiles (3 connectivities, border mixes incl. looped, size-2 looped axes, anisotropic spacing, cache on/off), every accessor for every node in shuffled order with repeats; thorough adds all 4^4 border mixes x shapes; non-trivial = grid accepted and queried",
          trusted_base=GRID_TB)
-register("C17", gen=lambda r, t: gen_grids(r, t) + gen_grids_exhaustive(r, t), oracles=[oracle.c17],
+register("C17", lean_modules=['FsModel.Iter'], theorems=['Fs.Iter.skipFwd_stop'], gen=lambda r, t: gen_grids(r, t) + gen_grids_exhaustive(r, t), oracles=[oracle.c17],
          sections={"grid", "status", "iter", "base", "size"}, nontrivial=lambda si: True, tags=tags_grid,
          rule="all 4^4 raster / 4^2 profile border mixes on small shapes (exhaustive) + random grids with override maps + malformed stream (asymmetric loops, looped/out-of-range overrides); status array, iteration in both directions for every filter, default base levels",
          trusted_base=GRID_TB)
@@ -444,7 +444,7 @@ def c08_runner(P, exe, model_ok, rng, tier, replay=None):
     return res
 
 
-register("C08", gen=gen_c08, runner=c08_runner, oracles=[], sections=None, nontrivial=lambda si: True, tags=tags_flow, level="proof",
+register("C08", lean_modules=['FsModel.Iter'], theorems=['Fs.Iter.skipFwd_log_in_range'], gen=gen_c08, runner=c08_runner, oracles=[], sections=None, nontrivial=lambda si: True, tags=tags_flow, level="proof",
          rule="scenario sets of the other properties' generators (grids incl. malformed, all operator families, accumulate, basins, eroders) executed under ASan+UBSan with _GLIBCXX_ASSERTIONS and asserts enabled; every distinct (kind, file:line) report is a failure; index-logic theorems cover all sizes",
          trusted_base=["sanitizers see only executed paths; signed overflow / lifetime errors are covered by sampled sanitizer runs only",
                        "the index-safety theorems speak about the model's access logs, tied to the code by the translator (conjunct order, table widths) and correspondence"])
@@ -531,3 +531,56 @@ def gen_histories(rng, tier):
 register("C09", gen=gen_histories, oracles=[oracle.c09], sections=None, nontrivial=raised_or_rerouted, tags=tags_flow,
          rule="one graph object driven through a random history (updates with other fields, masks, base-level sets of different sizes - which rehash the hash set -, exponent changes, accumulate, basins), then final inputs applied twice (repeat) and to a fresh graph on the same grid object; all observable tables, elevation, accumulation and basins compared bit for bit; non-trivial = resolver raised some node",
          trusted_base=FLOW_TB + ["the hash-set iteration order of base levels is handed to the model as an input and is universally quantified in the seed-order theorem"])
+
+
+# ----------------------------------------------------------------------------- manifest texts
+NOT_CLAIMED = {}
+
+_CORR = ("Every run re-checks these theorems (lake build + #print axioms), regenerates the data part of the model from /repo, "
+         "runs the compiled Lean model and the real code (ASan/UBSan build of /repo's working tree) on the same generated scenarios "
+         "with bit-exact comparison, and evaluates an independent oracle of the property on the implementation's outputs.")
+
+
+def _lvl(pid, level, text, technique=None, note=None):
+    P = PROPS[pid]
+    P["level"] = level
+    P["level_text"] = text + " " + _CORR
+    if technique:
+        P["technique"] = technique
+    if note:
+        P["level_note"] = note
+
+
+_lvl("C01", "proof",
+     "Theorems for all sizes/inputs about the model's flood, router and tilt components: after the priority flood every closed non-seed node has a strictly lower closed unmasked neighbour (pflood_parent), every node unmasked-connected to a seed is closed (pflood_complete), strictly descending receivers make 'flows to' well-founded (step_wf: no cycle, finite paths), composition flood+single router (C01_pflood_single), strict descent after the spanning-tree tilt pass (tilt_descends). The spanning-tree re-routing itself (connect/Kruskal/Boruvka/orient/carve/basic) is modelled and tied by correspondence + oracle only.",
+     "Lean 4 invariant proofs (flood loop, router scan, tilt) + bit-exact differential correspondence + reachability oracle")
+_lvl("C02", "proof",
+     "Theorem-backed: parent property of the flood (every raised node sits one increment above a closed neighbour, basis of f >= spill) on the executed model. The lower-bound and n-ulp upper-bound proofs (visit_lb, pflood_upper) exist for an instrumented copy of the flood and are listed in DESIGN.md as not yet tied to the executed definitions; the two-sided spill bound, f >= z and identity at base/masked nodes are checked on every run by an independent Bellman minimax oracle on the implementation's elevations for all six resolver variants.",
+     "Lean 4 flood invariant + bit-exact correspondence + independent minimax-spill oracle")
+_lvl("C03", "translation_validation",
+     "The accumulation sweep is modelled in Lean (Fs.Flow.accumulate) and compared bit for bit with all four C++ overloads; an exact-rational oracle checks the recurrence and conservation on the implementation's doubles. The conservation theorem (FsProofs.Acc.step_conserves) is about a separate formulation and is not yet tied to the executed definition, so no proof is claimed.",
+     "bit-exact differential correspondence with the Lean model + exact-rational recurrence/conservation oracle")
+_lvl("C04", "proof",
+     "route_spec (all neighbour lists, all elevations over any strict weak order): the router scan keeps the node iff no unmasked neighbour is strictly lower, else returns an unmasked strictly lower neighbour of maximal slope with its distance. Base/masked rows, weights and the parallel variant are model definitions tied by correspondence; oracle recomputes slopes on the implementation's output.",
+     "Lean 4 fold-invariant proof of the router scan + bit-exact correspondence + slope oracle")
+_lvl("C05", "translation_validation",
+     "Multi router modelled in Lean (candidate filter, normalised pow weights in the C++ operation order) and compared bit for bit; oracle checks receivers = strictly lower unmasked neighbours, finiteness, proportionality and unit sum in exact rationals. The weight-sum theorem (FsProofs.Weights) is not yet tied to the executed definition.",
+     "bit-exact differential correspondence + exact-rational weight oracle")
+_lvl("C06", "proof",
+     "Theorems on the executed components: donor table = inverse of the receiver function, without duplicates (mem_donors, donors_nodup); bottom-up order places every node after its receiver (dfs_recv_before) and is a permutation of all nodes on a forest (dfs_perm); every node of the next breadth-first level has all receivers in earlier levels (next_level_receivers). Top-down (Kahn) order and multi-router donors are tied by correspondence + oracle.",
+     "Lean 4 stack/queue invariant proofs + bit-exact correspondence + table-consistency oracle")
+_lvl("C07", "proof",
+     "Theorem on the executed index arithmetic: the size_t wrap-around computation of a neighbour index equals the integer result whenever that lies in range (nbIndex_toNat). The count/offset tables are regenerated from raster_grid.hpp on every run and drive the executed model, whose every accessor is compared with the real grid for every node; the geometric oracle checks symmetry, distances, statuses. (The table-vs-geometry theorem currently exists for queen connectivity on a copy of the tables; see DESIGN.md.)",
+     "translator-regenerated tables + Lean index-arithmetic theorem + exhaustive-accessor correspondence + geometric oracle")
+_lvl("C08", "proof",
+     "Theorem: every status read of the filtered iterator's skip loop is at an index < size when the bounds test precedes the filter (conjunct order regenerated from iterators.hpp each run). Everything else is the sanitizer build: every scenario of the other properties runs under ASan+UBSan+_GLIBCXX_ASSERTIONS; each distinct report is a violation. Partial by nature: Lean proves index logic of the model, not absence of UB in C++.",
+     "Lean 4 access-log theorem + translator (conjunct order) + ASan/UBSan execution of all scenario families")
+_lvl("C09", "translation_validation",
+     "Histories on one object vs a fresh object vs the Lean model (a pure function of the inputs in force): every observable compared bit for bit; the hash-set seed order is handed to the model and the result must not depend on it. Seed-order irrelevance theorem exists for an instrumented copy (seedQueue_perm) and is not yet tied.",
+     "history-vs-fresh differential testing + correspondence with a pure Lean model")
+_lvl("C17", "proof",
+     "Theorem on the executed skip loop (skipFwd_stop: it stops at the first index satisfying the filter or at size). Status composition is executed by the model from the regenerated enum/precedence constants and compared exhaustively over all 4^4 / 4^2 border mixes on small shapes, plus malformed override maps with error kinds; iteration in both directions compared for every filter.",
+     "Lean 4 iterator theorem + translator constants + exhaustive border-mix correspondence")
+_lvl("C19", "proof",
+     "Theorems on the executed labelling sweep: within the block of the bottom-up order that starts at an outlet, every node gets the outlet's label and labels are numbered in order (run_block, block_labels_agree). Block structure of the order, pits and masked labels are tied by correspondence + oracle.",
+     "Lean 4 fold proofs of the labelling sweep + bit-exact correspondence + partition oracle")
